@@ -179,6 +179,51 @@ def tr_tag(fn):
             "  then %s ++ [%s]\n  else %s." % (tg, ev, tagged, gv, gv, tg, accept, tg))
 
 
+def tr_find_mapping(fn):
+    """if target in self.reducer_mappings: return target
+       for k in self.reducer_mappings: if k[0] == "<c>" and k.replace("<c>", "") in target: return cast(str, k)
+       return None"""
+    if [a.arg for a in fn.args.args] != ["self", "target"]:
+        bad(fn, "_find_mapping_name signature")
+    b = body_of(fn)
+    if len(b) != 3:
+        bad(fn, "_find_mapping_name has %d statements, expected 3" % len(b))
+    s0, s1, s2 = b
+    if not (isinstance(s0, ast.If) and not s0.orelse and ast.unparse(s0.test) == "target in self.reducer_mappings" and len(s0.body) == 1
+            and isinstance(s0.body[0], ast.Return) and ast.unparse(s0.body[0].value) == "target"):
+        bad(s0, "_find_mapping_name: exact match first")
+    if not (isinstance(s1, ast.For) and not s1.orelse and isinstance(s1.target, ast.Name) and ast.unparse(s1.iter) == "self.reducer_mappings"
+            and len(s1.body) == 1 and isinstance(s1.body[0], ast.If) and not s1.body[0].orelse and len(s1.body[0].body) == 1
+            and isinstance(s1.body[0].body[0], ast.Return)):
+        bad(s1, "_find_mapping_name: loop")
+    k = s1.target.id
+    t = s1.body[0].test
+    if not (isinstance(t, ast.BoolOp) and isinstance(t.op, ast.And) and len(t.values) == 2):
+        bad(t, "_find_mapping_name: loop test is not `a and b`")
+    a, c = t.values
+    if not (isinstance(a, ast.Compare) and len(a.ops) == 1 and isinstance(a.ops[0], ast.Eq) and ast.unparse(a.left) == k + "[0]"
+            and isinstance(a.comparators[0], ast.Constant) and isinstance(a.comparators[0].value, str) and len(a.comparators[0].value) == 1):
+        bad(a, "_find_mapping_name: first conjunct is not `k[0] == '<char>'`")
+    ch = a.comparators[0].value
+    if ast.unparse(c) != "%s.replace(%r, '') in target" % (k, ch):
+        bad(c, "_find_mapping_name: second conjunct is not `k.replace('%s', '') in target`" % ch)
+    if ch != "$":
+        bad(a, "_find_mapping_name: the marker character is %r; the model's remove_dollar removes '$'" % ch)
+    r = s1.body[0].body[0].value
+    if ast.unparse(r) not in (k, "cast(str, %s)" % k):
+        bad(r, "_find_mapping_name: loop returns something else than the key")
+    if not (isinstance(s2, ast.Return) and isinstance(s2.value, ast.Constant) and s2.value.value is None):
+        bad(s2, "_find_mapping_name: does not end with `return None`")
+    return ("(* FRaise: `k[0]` on an empty key raises IndexError *)\n"
+            "Fixpoint src_find_marked (keys : list string) (target : string) : fm :=\n"
+            "  match keys with\n  | [] => FNone\n  | %(k)s :: rest =>\n"
+            "      match %(k)s with\n      | EmptyString => FRaise\n"
+            "      | String c _ => if Ascii.eqb c \"%(ch)s\"%%char && substringb (remove_dollar %(k)s) target then FFound %(k)s\n"
+            "                      else src_find_marked rest target\n      end\n  end.\n"
+            "Definition src_find_mapping_name (keys : list string) (target : string) : fm :=\n"
+            "  if existsb (String.eqb target) keys then FFound target else src_find_marked keys target." % dict(k=k, ch=ch))
+
+
 def same(fn, text, what):
     got = body_of(fn)
     want = ast.parse(text).body
@@ -192,6 +237,7 @@ def gen(repo):
     base = ast.parse(open(os.path.join(str(repo), BASE), encoding="utf-8").read())
     out = [tr_regularize(find(comp, "ReducerMethodWrappingDispatcher", "regularize_returned_event")),
            tr_tag(find(comp, "ReducerMethodWrappingDispatcher", "tag_events_by_method_name"))]
+    out.append(tr_find_mapping(find(comp, "ReducerMethodWrappingDispatcher", "_find_mapping_name")))
     # the string rules: small enough to be compared verbatim; the emitted definitions spell out what the text means
     same(find(base, None, "message_signature"),
          "if len(message['method']) == 0:\n    return message['name']\nreturn f\"{message['name']}.{message['method']}\"\n", "message_signature")
@@ -206,12 +252,12 @@ def gen(repo):
          "return AddressedStore(self._concrete_store, f'{self._current_address}.{address}')\n", "AddressedStore.local")
     out.append("Definition src_local (current_address address : string) : string := current_address ++ \".\" ++ address.")
     return {"WrapperSrc.v": HEADER + "\n\n".join(out) + "\n\nEnd WrapperSrc.\n"}, \
-        {"functions": ["ReducerMethodWrappingDispatcher.regularize_returned_event", "tag_events_by_method_name", "message_signature",
+        {"functions": ["ReducerMethodWrappingDispatcher.regularize_returned_event", "tag_events_by_method_name", "_find_mapping_name", "message_signature",
                        "AddressedStore._resolve_address", "AddressedStore.local"], "sources": [COMP, BASE]}
 
 
 HEADER = """(* GENERATED by tools/tr_wrapper.py from simaple/simulate/component/base.py and simaple/simulate/base.py - do not edit *)
-From Coq Require Import List String Bool Arith.
+From Coq Require Import List String Ascii Bool Arith.
 Import ListNotations.
 From V Require Import Model.Dispatch.
 Local Open Scope string_scope.
